@@ -2344,6 +2344,35 @@ impl SctpInner {
                 }
             }
 
+            // The skip can make already buffered chunks the next in order. Nothing
+            // else would deliver them until more DATA arrives (the peer considers
+            // them acknowledged and will not send them again).
+            let mut to_process = Vec::new();
+            {
+                let mut received_queue = self.received_queue.lock();
+                loop {
+                    let next_tsn = self
+                        .cumulative_tsn_ack
+                        .load(Ordering::Relaxed)
+                        .wrapping_add(1 + to_process.len() as u32);
+                    if let Some(entry) = received_queue.remove(&next_tsn) {
+                        to_process.push(entry);
+                    } else {
+                        break;
+                    }
+                }
+            }
+            for (p_flags, p_chunk) in to_process {
+                let chunk_len = p_chunk.len();
+                let next_tsn = self
+                    .cumulative_tsn_ack
+                    .load(Ordering::Relaxed)
+                    .wrapping_add(1);
+                self.process_data_payload(p_flags, p_chunk).await?;
+                self.cumulative_tsn_ack.store(next_tsn, Ordering::Relaxed);
+                self.used_rwnd.fetch_sub(chunk_len, Ordering::Relaxed);
+            }
+
             self.timer_notify.notify_one();
         }
 
